@@ -359,3 +359,27 @@ Proof.
   destruct (collect_ok_length _ _ _ Hge Ec) as [H1 _]. rewrite H1.
   clear. induction docs as [|d r IH]; [reflexivity|]. simpl. rewrite app_length, IH. reflexivity.
 Qed.
+
+(* ---------- input written with CR LF line ends ---------- *)
+Lemma strip_cr_snoc l : strip_cr (l ++ [13]) = l.
+Proof. unfold strip_cr. rewrite rev_app_distr. simpl. apply rev_involutive. Qed.
+
+Theorem tool_spec_crlf_proof g ls docs : line_preserving g ->
+  Forall2 (fun l d => base64_decode l = DOk d) ls docs ->
+  forallb (no_delim 10) ls = true ->
+  forallb bytes_okb (map (doc_spec g) docs) = true ->
+  b64filter_tool g (unrecords 10 (map (fun l => l ++ [13]) ls))
+  = BOk (unrecords 10 (map (fun d => rfc4648 (doc_spec g d)) docs)).
+Proof.
+  intros Hg Hdec Hlf Hok. unfold b64filter_tool, b64filter, b64filter_stream.
+  assert (records 10 b64f_feeder_strip_cr (unrecords 10 (map (fun l => l ++ [13]) ls)) = ls) as Er.
+  { unfold records, b64f_feeder_strip_cr.
+    assert (forallb (no_delim 10) (map (fun l => l ++ [13]) ls) = true) as Hlf'.
+    { rewrite forallb_forall in *. intros x Hx. apply in_map_iff in Hx. destruct Hx as (l & <- & Hl).
+      rewrite no_delim_app, (Hlf l Hl). reflexivity. }
+    rewrite (split_at_unrecords 10 _ Hlf'). rewrite app_nil_r, map_map.
+    rewrite <- (map_id ls) at 2. apply map_ext. apply strip_cr_snoc. }
+  rewrite Er, (decode_all_spec ls docs Hdec). unfold b64filter_docs_stream.
+  destruct (documents_preserved_proof g docs Hg) as (ci & ms & E1 & _ & _ & E2).
+  rewrite E1, E2, (encode_all_spec _ Hok), map_map. reflexivity.
+Qed.
